@@ -102,6 +102,26 @@ Fixpoint take_rolled (c : list cell) (limit : nat) : list cell * list cell :=
   | _, _ => ([], c)
   end.
 
+(* second loop of Double: for i in [0, old_end): if occupied, take the entry out and re-insert it *)
+Section Reinsert.
+  Variable n2 : nat.
+  Variable ideal : Z -> nat.
+  Variable next : nat -> nat.
+  Fixpoint reinsert (k : nat) (i : nat) (c : list cell) : option (list cell) :=
+    match k with
+    | O => Some c
+    | S k' => let x := getc c i in
+              if fst x =? 0 then reinsert k' (S i) c
+              else match unchecked_insert n2 ideal next (setc c i (0, snd x)) x with
+                   | None => None
+                   | Some c' => reinsert k' (S i) c'
+                   end
+    end.
+  (* third loop: put the roll-over entries back *)
+  Definition insert_all (rolled : list cell) (c : option (list cell)) : option (list cell) :=
+    fold_left (fun acc x => match acc with None => None | Some c => unchecked_insert n2 ideal next c x end) rolled c.
+End Reinsert.
+
 Section Double.
   Variable m : modpolicy.
   Definition double_cells (old : list cell) : option (list cell) :=
@@ -111,22 +131,9 @@ Section Double.
     let next := next_of m n2 in
     let c0 := old ++ empty_cells n in
     let '(rolled, c1) := take_rolled c0 n in
-    (* second loop: for i in [0, old_end): if occupied, take out and re-insert *)
-    let reinsert := fix go (k : nat) (i : nat) (c : list cell) : option (list cell) :=
-      match k with
-      | O => Some c
-      | S k' => let x := getc c i in
-                if fst x =? 0 then go k' (S i) c
-                else match unchecked_insert n2 ideal next (setc c i (0, snd x)) x with
-                     | None => None
-                     | Some c' => go k' (S i) c'
-                     end
-      end in
-    match reinsert n O c1 with
+    match reinsert n2 ideal next n O c1 with
     | None => None
-    | Some c2 =>
-        fold_left (fun acc x => match acc with None => None | Some c => unchecked_insert n2 ideal next c x end)
-                  rolled (Some c2)
+    | Some c2 => insert_all n2 ideal next rolled (Some c2)
     end.
 End Double.
 
